@@ -23,14 +23,20 @@ def close(f, q, rel=1e-9, scale=0):
 
 
 @core.safe_case
-def one(ctx, pts, kind, queries, family):
+def one(ctx, pts, kind, queries, family, int_dtype=None):
     import kneeliverse.evaluation as ev
     import kneeliverse.linear_fit as lf
     import kneeliverse.metrics as metrics
     cost = getattr(metrics.Metrics, kind)
     n = len(pts)
     d = ctx.get_driver()
-    case = dict(points=pts.tolist(), metric=kind, queries=queries)
+    if int_dtype is None:
+        int_dtype = bool(gen.int_ok(pts) and ctx.rng.random() < 0.35)
+    # an integral curve is also delivered as an int64 array (raw counts) to the REAL calls; oracles / references keep the float64 copy
+    pin = pts.astype(np.int64) if int_dtype else pts
+    if int_dtype:
+        ctx.tag('input:int64-dtype')
+    case = dict(points=pts.tolist(), metric=kind, queries=queries, int_dtype=bool(int_dtype))
     site = f'evaluation.compute_global_cost[{kind}]'
     y = pts[:, 1]
     tss = float(np.sum(np.square(y - np.mean(y))))
@@ -40,9 +46,9 @@ def one(ctx, pts, kind, queries, family):
     for qi, red in enumerate(queries):
         before = set(shared.keys())
         try:
-            vs = float(ev.compute_global_cost(pts, list(red), cost, shared))
-            vf = float(ev.compute_global_cost(pts, list(red), cost, {}))
-            vn = float(ev.compute_global_cost(pts, np.array(red), cost))
+            vs = float(ev.compute_global_cost(pin, list(red), cost, shared))
+            vf = float(ev.compute_global_cost(pin, list(red), cost, {}))
+            vn = float(ev.compute_global_cost(pin, np.array(red), cost))
         except Exception as e:
             ctx.fail('predicate', 'completes', site, case, repr(e)[:200])
             return
@@ -141,7 +147,7 @@ def one(ctx, pts, kind, queries, family):
             break
     # all points are breakpoints: with a fresh cache AND with the cache the queries above have filled
     for label, cache_ in (('fresh', {}), ('shared', shared)):
-        allv = float(ev.compute_global_cost(pts, list(range(n)), cost, cache_))
+        allv = float(ev.compute_global_cost(pin, list(range(n)), cost, cache_))
         if allv != (1.0 if kind == 'r2' else 0.0):
             ctx.fail('predicate', f'all-breakpoints-value({label} cache)', site, case, dict(value=allv))
     nontriv = (pts.tobytes(), kind, str(queries)) if hits >= 1 and max(len(q) for q in queries) >= 4 else None
@@ -151,15 +157,18 @@ def one(ctx, pts, kind, queries, family):
 
 
 @core.safe_case
-def rmse_mip(ctx, pts, red, family):
+def rmse_mip(ctx, pts, red, family, int_dtype=None):
     import kneeliverse.evaluation as ev
     n = len(pts)
     d = ctx.get_driver()
-    case = dict(points=pts.tolist(), reduced=red)
+    if int_dtype is None:
+        int_dtype = bool(gen.int_ok(pts) and ctx.rng.random() < 0.35)
+    pin = pts.astype(np.int64) if int_dtype else pts
+    case = dict(points=pts.tolist(), reduced=red, int_dtype=bool(pin is not pts))
     x, y = pts[:, 0], pts[:, 1]
     try:
-        g = float(ev.compute_global_rmse(pts, np.array(red)))
-        gs = float(ev.compute_global_rmse(pts, np.array(red), {}))
+        g = float(ev.compute_global_rmse(pin, np.array(red)))
+        gs = float(ev.compute_global_rmse(pin, np.array(red), {}))
     except Exception as e:
         ctx.fail('predicate', 'completes', 'evaluation.compute_global_rmse', case, repr(e)[:200])
         return
@@ -177,7 +186,7 @@ def rmse_mip(ctx, pts, red, family):
     if not close(g * g, q, 1e-9, ymax ** 2 + (2 * g * noise + noise * noise) * 1e9):
         ctx.fail('predicate', 'global-rmse-equals-its-definition', 'evaluation.compute_global_rmse', case, dict(impl_sq=g * g, model=float(q)))
     if len(red) >= 3:
-        m, mad = ev.mip(pts, np.array(red))
+        m, mad = ev.mip(pin, np.array(red))
         out = d.call('mip', [core.rats(x), core.rats(y), core.nats(red)], lambda name, a: core.rat(math.sqrt(float(F(a[0])))))
         qm, qd = F(out[0]), F(out[1])
         ctx.corr_checked += 1
@@ -185,7 +194,7 @@ def rmse_mip(ctx, pts, red, family):
         if abs(float(m) - float(qm)) > 1e-7 * sc or abs(float(mad) - float(qd)) > 1e-7 * sc:
             ctx.fail('predicate', 'mip-equals-its-definition', 'evaluation.mip', case, dict(impl=[float(m), float(mad)], model=[float(qm), float(qd)]))
         # direct definition: median over interior breakpoints of rmse(delete i) - rmse(all)
-        ip = [float(ev.compute_global_rmse(pts, np.delete(np.array(red), i))) - g for i in range(1, len(red) - 1)]
+        ip = [float(ev.compute_global_rmse(pin, np.delete(np.array(red), i))) - g for i in range(1, len(red) - 1)]
         if abs(float(m) - float(np.median(ip))) > 1e-12 * (abs(float(m)) + 1e-12):
             ctx.fail('predicate', 'mip==median-rmse-increase-of-deleting-a-breakpoint', 'evaluation.mip', case, dict(impl=float(m), expected=float(np.median(ip))))
     ctx.count(family + ':rmse/mip', n=n, nontrivial_key=(pts.tobytes(), tuple(red)) if len(red) >= 4 else None, sample=dict(n=n, reduced=red, global_rmse=g))
@@ -237,6 +246,10 @@ def run(ctx):
         elif u2 < 0.2:
             pts, vt = gen.magnitude(rng, pts, 1.0, ('xytiny30', 'ytiny30', 'xoff30', 'xyhuge30'))
             fam += vt
+        elif u2 < 0.28 and fam not in ('flat', 'flat+1', 'zigzag'):
+            q = gen.bytecount_of(pts) if rng.random() < 0.5 else np.column_stack([pts[:, 0], np.floor(pts[:, 1] * 64)])
+            if np.all(np.diff(q[:, 0]) > 0):
+                pts, fam = q, fam + '@integer'
         base = gen.random_subset_with_ends(rng, n)
         queries = []
         for _ in range(rng.randrange(2, 9)):
@@ -261,6 +274,6 @@ def run(ctx):
 def replay(ctx, body):
     c = body['case']
     if 'queries' in c:
-        one(ctx, np.array(c['points'], float), c['metric'], c['queries'], 'replay')
+        one(ctx, np.array(c['points'], float), c['metric'], c['queries'], 'replay', bool(c.get('int_dtype', False)))
     else:
-        rmse_mip(ctx, np.array(c['points'], float), c['reduced'], 'replay')
+        rmse_mip(ctx, np.array(c['points'], float), c['reduced'], 'replay', bool(c.get('int_dtype', False)))
